@@ -297,8 +297,11 @@ impl TracerFactory for RecFactory {
     fn create(&mut self) -> Box<dyn Tracer> {
         let cur = CUR.with(|c| c.borrow().clone());
         match cur {
-            Some((ctx, _parent)) => {
+            Some((ctx, parent)) => {
                 let log = ctx.new_session();
+                // the creation of an Fsm on a session thread = this session starts a child (invoke): note it in the
+                // parent's own log, at its position in the parent's program order
+                push(&ctx, &parent, vec![json!("CH"), json!(log.idx)]);
                 Box::new(Rec { ctx, log, start_gate: false })
             }
             None => {
